@@ -185,7 +185,7 @@ def run(ctx):
                 "oracle <psi|L_g|phi>/<psi|phi> in Fock space for every component, and the central-difference log-derivative of the "
                 "public calc_overlap along exp(x L_g); non-trivial & distinct = distinct reference force-bias values on the dense set")
     ctx.assume("walkers with reference overlap < 1e-2 of the grid maximum excluded beforehand (property: non-vanishing overlap)")
-    ctx.pmap(job, configs(ctx.tier, ctx.seed))
+    ctx.pmap(job, configs(ctx.tier, ctx.seed), tasks_per_child=2)
     ctx.require_guard("grid_points_u", "grid_points_r", "logderivative_points")
 
 
